@@ -140,6 +140,8 @@ let run_gs (toks : string list) : string =
          | Some st -> regs := Array.of_list st)
     | [("msm" | "ms"); _; _; is; ss] | ["msx"; _; _; is; ss] ->
         push (c_msm (List.map get (ints_of is)) (frs_of ss))
+    | ["pcsm"; is; ss] ->
+        push (c_msm (List.map get (ints_of is)) (frs_of ss))
     | ["msmp"; kv] ->
         let n = 256 in
         let v = poly_of_spec n ("s:" ^ kv) in
@@ -289,11 +291,11 @@ let handle toks =
         (poly_of_spec 256 spec);
       hex_of_bytes (bw_bytes !res)
   | ["crs"; i] -> hex_of_bytes (bw_bytes (List.nth (Lazy.force crs) (int_of_string i)))
-  | ["mprd"; spec; h] ->
+  | [("mprd" | "mprdu"); spec; h] ->
       (match mp_read strict_probe (reader_of_spec spec (bytes_of_hex h)) with
        | Inl (d, ip) -> "OK " ^ hex_of_bytes (List.concat (mp_write_chunks d ip))
        | Inr _ -> "ERR")
-  | ["ipard"; spec; h] ->
+  | [("ipard" | "ipardu"); spec; h] ->
       (match ipa_read (reader_of_spec spec (bytes_of_hex h)) with
        | Inl (ip, _) -> "OK " ^ hex_of_bytes (List.concat (ipa_write_chunks ip))
        | Inr _ -> "ERR")
